@@ -68,7 +68,8 @@ fn param(s: &mut S, me: &str) -> String {
                 // long multi-byte text: byte offsets 100, 255, 256, 300, 500, 512, 1000 fall
                 // inside characters for at least one of the three widths
                 let unit = ["\u{e9}", "\u{65e5}", "a\u{1f600}"][s.pick(3)];
-                unit.repeat(640 / unit.len())
+                // (a 0..4 byte ASCII lead shifts the phase, so every offset is hit mid-character)
+                format!("{}{}", long(s.pick(5), 'a'), unit.repeat(640 / unit.len()))
             }
         }
         15 => "*".into(),
